@@ -38,6 +38,11 @@ Theorem C15_symm_par : S_symm_par.
 Proof. exact symm_par_correct. Qed.
 Print Assumptions C15_symm_par.
 
+(** for every schedule symm_par returns exactly what symm_seq returns, numbering included *)
+Theorem C15_symm_par_eq_seq : S_symm_par_eq_seq.
+Proof. exact symm_par_eq_seq. Qed.
+Print Assumptions C15_symm_par_eq_seq.
+
 (** Kosaraju's second phase (visits of the transpose in the given root order) yields the SCC
     partition for every root order with the finishing-order property *)
 Theorem C15_kosaraju_phase2 : S_kosaraju_phase2.
